@@ -286,6 +286,7 @@ theorem esc_cmd (fuel : Nat) (ih : Esc fuel) : ∀ s c, Within (loops s.stack) (
   | exit n => simp only [execCmd]; exact within_finishSimple _ _ _ trivial
   | setE on => simp only [execCmd]; exact within_finishSimple _ _ _ trivial
   | setM on => simp only [execCmd]; exact within_finishSimple _ _ _ trivial
+  | setP on => simp only [execCmd]; exact within_finishSimple _ _ _ trivial
   | unknown => simp only [execCmd]; exact within_finishSimple _ _ _ trivial
   | absent w r a => simp only [execCmd]; exact within_finishSimple _ _ _ trivial
   | tick c k => simp only [execCmd]; split <;> exact within_finishSimple _ _ _ trivial
